@@ -186,7 +186,13 @@ extern "C" void harness() {
   // arbitrary distribution of the cells over a 3 x 2 window of bins starting at column x0
   int x0 = 1 + __verif_choice(2);     // windows 1..3 and 2..4: both contain the zero-capacity columns 2 and 3
   std::vector<std::vector<std::vector<int> > > put(3, std::vector<std::vector<int> >(2));
+#ifdef OVERFULL
+  // H16RO: every cell in the same bin of the window and more demand than the whole window can hold (capacity-increase path)
+  __verif_assume((long long)dem[0] + dem[1] + dem[2] > 52);
+  for (int c = 0; c < NCELL; ++c) put[x0 == 1 ? 0 : 2][0].push_back(c);
+#else
   for (int c = 0; c < NCELL; ++c) { int bx = (c == 0) ? 1 : __verif_choice(3); int by = (c == 0) ? 0 : __verif_choice(2); put[bx][by].push_back(c); }
+#endif
   for (int i = 0; i < leg.nbBinsX(); ++i) for (int j = 0; j < leg.nbBinsY(); ++j) leg.setBinCells(i, j, std::vector<int>());
   for (int bx = 0; bx < 3; ++bx) for (int by = 0; by < 2; ++by) leg.setBinCells(x0 + bx, by, put[bx][by]);
   invariantL(leg, dem);
